@@ -27,3 +27,64 @@ pub fn policy(v: &Value) -> Value {
     let _ = std::fs::remove_dir_all(&dir);
     json!({"mode": mode.as_str()})
 }
+
+/// K1: the real post_commit on a scratch repository whose working log holds an agent checkpoint with a
+/// transcript. Configuration (HOME/.git-ai/config.json), GIT_AI_API_BASE_URL and the database path are set by
+/// the caller. {prompts: n}
+pub fn post_commit(v: &Value) -> Value {
+    let dir = std::env::temp_dir().join(format!("vreplay-c08p-{}", std::process::id()));
+    let _ = std::fs::remove_dir_all(&dir);
+    std::fs::create_dir_all(&dir).unwrap();
+    let git = |args: &[&str]| {
+        let o = std::process::Command::new("git")
+            .args(args)
+            .current_dir(&dir)
+            .env("GIT_AUTHOR_NAME", "v")
+            .env("GIT_AUTHOR_EMAIL", "v@v")
+            .env("GIT_COMMITTER_NAME", "v")
+            .env("GIT_COMMITTER_EMAIL", "v@v")
+            .output()
+            .unwrap();
+        assert!(o.status.success(), "git {:?}: {}", args, String::from_utf8_lossy(&o.stderr));
+        String::from_utf8_lossy(&o.stdout).trim().to_string()
+    };
+    git(&["init", "-q", "."]);
+    git(&["config", "user.name", "v"]);
+    git(&["config", "user.email", "v@v"]);
+    std::fs::write(dir.join("base.txt"), "base\n").unwrap();
+    git(&["add", "-A"]);
+    git(&["commit", "-q", "-m", "base"]);
+    let parent = git(&["rev-parse", "HEAD"]);
+    let n = v["prompts"].as_u64().unwrap_or(1);
+    for i in 0..n {
+        let f = format!("f{i}.txt");
+        std::fs::write(dir.join(&f), format!("ai line {i}\nai line two {i}\n")).unwrap();
+        let payload = json!({
+            "type": "ai_agent",
+            "repo_working_dir": dir.to_str().unwrap(),
+            "edited_filepaths": [f],
+            "transcript": {"messages": [{"type": "user", "text": format!("QQ{i}-secret-conversation")}, {"type": "assistant", "text": "RR-secret-conversation"}]},
+            "agent_name": "test-agent",
+            "model": "m",
+            "conversation_id": format!("conv{i}"),
+        });
+        std::env::set_current_dir(&dir).unwrap();
+        git_ai::commands::git_ai_handlers::handle_git_ai(&["checkpoint".to_string(), "agent-v1".to_string(), "--hook-input".to_string(), payload.to_string()]);
+    }
+    git(&["add", "-A"]);
+    git(&["commit", "-q", "-m", "next"]);
+    let commit = git(&["rev-parse", "HEAD"]);
+    if let Some(p) = v["break_db_after_checkpoint"].as_str() {
+        // SAFETY: single-threaded replay binary
+        unsafe {
+            std::env::set_var("GIT_AI_TEST_DB_PATH", p);
+            std::env::set_var("GITAI_TEST_DB_PATH", p);
+        }
+    }
+    let repo = git_ai::git::find_repository_in_path(dir.to_str().unwrap()).expect("repo");
+    let r = git_ai::authorship::post_commit::post_commit(&repo, Some(parent), commit.clone(), "v".to_string(), true);
+    let note = std::process::Command::new("git").args(["notes", "--ref=ai", "show", &commit]).current_dir(&dir).output().unwrap();
+    let text = String::from_utf8_lossy(&note.stdout).to_string();
+    let _ = std::fs::remove_dir_all(&dir);
+    json!({"ok": r.is_ok(), "error": r.err().map(|e| e.to_string()), "note_has_conversation": text.contains("secret-conversation"), "note_len": text.len()})
+}
